@@ -181,7 +181,7 @@ func implView(o *WOutcome) string {
 	for i, l := range ls {
 		el[i] = esc(l)
 	}
-	return "R=" + normAbort(r) + "\tT=" + strings.Join(el, "|") + "\tW=" + strings.Join(ws, "|")
+	return "R=" + r + "\tT=" + strings.Join(el, "|") + "\tW=" + strings.Join(ws, "|")
 }
 
 func modelView(ans string) (view, g string) {
